@@ -1,6 +1,128 @@
 -------------------------------- MODULE JC17 --------------------------------
-(* C17 — contract of the recorded events of this property (stub).           *)
+(* C17 — radix strings: canonical output, exact parse, overflow always      *)
+(* reported.  Strings travel as sequences of byte codes.                    *)
+(*                                                                          *)
+(* "fmt"      x, bits, radix -> str : the canonical lowercase numeral of x  *)
+(*            (no leading zeros, "0" for zero).                             *)
+(* "parse"    s, radix, tk, bits -> v | err(e)                              *)
+(*            tk = "fixed": Uint of `bits` bits, size error = InputSize     *)
+(*            tk = "prec" : BoxedUint with `bits` bits of precision         *)
+(*                          requested, size error = InputSize or Precision, *)
+(*                          vp = precision of the result (rounded up to a   *)
+(*                          multiple of 64)                                 *)
+(*            tk = "unb"  : BoxedUint without bound, never a size error     *)
+(* "parsefmt" parse s in `radix`, format the parsed integer in radix r2     *)
+(*            -> str = canonical numeral of the value s denotes.            *)
+(* A radix outside 2..36 panics (documented) in every operation.            *)
+(*                                                                          *)
+(* What is a numeral (doc comments of from_str_radix_vartime + property     *)
+(* text): an optional '+', then digits of the radix in either letter case,  *)
+(* with single underscores allowed between digits; leading zeros allowed.   *)
+(* Permissive where the documentation is silent:                            *)
+(*  - doubled interior underscores: the value or InvalidDigit;              *)
+(*  - a lone "+" : Empty or InvalidDigit; only underscores: likewise;       *)
+(*  - a string that has an invalid character AND a run of digits before the *)
+(*    first / after the last invalid character so long that no numeral of   *)
+(*    that length fits the target: InvalidDigit or the size error (both     *)
+(*    documented conditions hold, the documentation gives no precedence).   *)
 EXTENDS BigNat
 
-JudgeC17(e, rg) == FALSE
+LOCAL Has(e, f) == f \in DOMAIN e
+
+LOCAL Plus == 43
+LOCAL Us   == 95
+LOCAL NoDigit == 99
+
+LOCAL DigVal(c) == IF c >= 48 /\ c <= 57 THEN c - 48
+                   ELSE IF c >= 97 /\ c <= 122 THEN c - 87
+                   ELSE IF c >= 65 /\ c <= 90 THEN c - 55
+                   ELSE NoDigit
+LOCAL DigChr(d) == IF d < 10 THEN 48 + d ELSE 87 + d
+LOCAL NotUs(c)  == c # Us
+
+(* canonical numeral of a natural *)
+LOCAL Canon(x, radix) ==
+  IF x = Zero THEN <<48>>
+  ELSE LET ds == ToDigits(x, radix) IN [i \in 1..Len(ds) |-> DigChr(ds[i])]
+
+LOCAL RadixOK(r) == r >= 2 /\ r <= 36
+
+LOCAL Up64(p) == 64 * ((p + 63) \div 64)
+
+(* radix^n - 1 : the largest numeral of n digits *)
+LOCAL MaxOfLen(radix, n) == FromDigits([i \in 1..n |-> radix - 1], radix)
+
+(* Classification of a string.  cls:                                        *)
+(*   "empty"   nothing (after the optional sign)                            *)
+(*   "blank"   only underscores                                             *)
+(*   "invalid" leading / trailing underscore, or a character that is not a  *)
+(*             digit of the radix; run = longest digit run before the first *)
+(*             or after the last such character (0 if none)                 *)
+(*   "num"     a numeral, val its value; dbl = it has a doubled underscore  *)
+LOCAL Analyse(s, radix) ==
+  LET signed == Len(s) > 0 /\ s[1] = Plus
+      t    == IF signed THEN SubSeq(s, 2, Len(s)) ELSE s
+      core == SelectSeq(t, NotUs)
+      dv   == [i \in 1..Len(core) |-> DigVal(core[i])]
+      bad  == {i \in 1..Len(core) : dv[i] >= radix}
+      edge == Len(t) > 0 /\ (t[1] = Us \/ t[Len(t)] = Us)
+      dbl  == \E i \in 1..(Len(t) - 1) : t[i] = Us /\ t[i + 1] = Us
+  IN IF t = <<>> THEN [cls |-> "empty", signed |-> signed]
+     ELSE IF core = <<>> THEN [cls |-> "blank"]
+     ELSE IF bad # {} THEN
+            LET lo == CHOOSE i \in bad : \A j \in bad : i <= j
+                hi == CHOOSE i \in bad : \A j \in bad : i >= j
+                a  == lo - 1
+                b  == Len(core) - hi
+            IN [cls |-> "invalid", run |-> IF a > b THEN a ELSE b]
+     ELSE IF edge THEN [cls |-> "invalid", run |-> 0]
+     ELSE [cls |-> "num", val |-> FromDigits(dv, radix), dbl |-> dbl]
+
+LOCAL FitsTarget(v, tk, bits) == tk = "unb" \/ Fits(v, bits)
+
+LOCAL SizeErr(e) == /\ e.k = "err"
+                    /\ e.tk # "unb"
+                    /\ \/ e.e = "InputSize"
+                       \/ e.tk = "prec" /\ e.e = "Precision"
+
+LOCAL IsErr(e, c) == e.k = "err" /\ e.e = c
+
+LOCAL JudgeFmt(e) ==
+  IF ~RadixOK(e.radix) THEN e.k = "panic"
+  ELSE /\ e.k = "ok"
+       /\ Fits(e.x, e.bits)                      \* sanity of the recorder
+       /\ e.str = Canon(e.x, e.radix)
+
+(* what a parse must return; Good(val) states the success outcome *)
+LOCAL ParseOutcome(e, Good(_)) ==
+  IF ~RadixOK(e.radix) THEN e.k = "panic"
+  ELSE LET a == Analyse(e.s, e.radix) IN
+    CASE a.cls = "empty"   -> IsErr(e, "Empty") \/ (a.signed /\ IsErr(e, "InvalidDigit"))
+      [] a.cls = "blank"   -> IsErr(e, "InvalidDigit") \/ IsErr(e, "Empty")
+      [] a.cls = "invalid" -> \/ IsErr(e, "InvalidDigit")
+                              \/ /\ SizeErr(e)
+                                 /\ a.run > 0
+                                 /\ ~Fits(MaxOfLen(e.radix, a.run), e.bits)
+      [] a.cls = "num"     -> \/ a.dbl /\ IsErr(e, "InvalidDigit")
+                              \/ IF FitsTarget(a.val, e.tk, e.bits)
+                                   THEN e.k = "ok" /\ Good(a.val)
+                                   ELSE SizeErr(e)
+
+LOCAL JudgeParse(e) ==
+  LET Good(val) == /\ e.v = val
+                   /\ (e.tk = "prec") => /\ Has(e, "vp")
+                                          /\ \/ e.vp = Up64(e.bits)
+                                             \/ e.bits = 0 /\ e.vp = 64   \* a BoxedUint has at least one limb
+  IN ParseOutcome(e, Good)
+
+LOCAL JudgeParseFmt(e) ==
+  IF ~RadixOK(e.r2) THEN e.k = "panic" \/ e.k = "err"
+  ELSE LET Good(val) == e.str = Canon(val, e.r2)
+       IN ParseOutcome(e, Good)
+
+JudgeC17(e, rg) ==
+  CASE e.op = "fmt"      -> JudgeFmt(e)
+    [] e.op = "parse"    -> JudgeParse(e)
+    [] e.op = "parsefmt" -> JudgeParseFmt(e)
+    [] OTHER -> FALSE
 =============================================================================
